@@ -91,6 +91,7 @@ type Enc struct {
 	unitFuns  map[string]bool
 	frameAllowed map[string][]string // declared modifies targets (entry-state index terms) by heap key
 	frameWhole   map[string]bool
+	inferredFn   *ssa.Function
 }
 
 type pendingStore struct {
